@@ -117,9 +117,10 @@ def check(run):
 
     run.clause('R5 every dereference of tcp::socket::m_channel is dominated by a null test, lies in a helper whose callers are guarded, or is tabled with its invariant')
     nder = 0
-    for fn in fx.repo_functions():
-        if fn.cls not in (T, A) or fn.cfg is None:
-            continue
+    import inline
+    # helpers no rule knows (a private member split off from one function) are examined as part of that function's inlined view
+    views = [inline.inlined_func(fx, f_) for f_ in fx.repo_functions() if f_.cls in (T, A) and f_.cfg is not None and q.top_function(fx, f_).key() == f_.key()]
+    for fn in views:
         sites = []
         for n in fn.all_nodes():
             if n['k'] == 'call' and n.get('opc') in ('->', '*') and n.get('args'):
@@ -142,7 +143,7 @@ def check(run):
         if not unguarded:
             continue
         # helper: all callers guarded?
-        callers = [(cf, c) for cf, c in fx.callers.get(fn.usr, []) if cf.file.startswith(simlib.REPO_PREFIX)]
+        callers = [(v_, c) for v_ in [inline.inlined_func(fx, f_) for f_ in fx.repo_functions() if f_.file.startswith(simlib.REPO_PREFIX) and f_.cfg is not None and q.top_function(fx, f_).key() == f_.key()] for c in v_.calls() if c.get('usr') == fn.usr]
         if fn.norm == T + '::incoming_packet':
             branch = 'payload-branch'
             key = (fn.norm, branch)
